@@ -75,6 +75,8 @@ def gen_case(rng):
         if rng.chance(1, 40):
             d += "map"                   # in the map but not in the trie
         words.append((d, rd, sf, sp))
+        if rng.chance(1, 4):             # homograph: same reading and surface at the same span, another part of speech
+            words.append((d, rd, sf, rng.pick(ANC_SPEECH if anc else STD_SPEECH)))
         if rng.chance(1, 5) and words:   # duplicate reading / homophone / same surface again
             d2, r2, s2, sp2 = rng.pick(words)
             words.append((d2, r2, s2 if rng.chance(1, 2) else rng.pick(KANJI), rng.pick(STD_SPEECH + ANC_SPEECH)))
@@ -118,6 +120,11 @@ CORPUS = [
     # the C02 seed's shape: duplicate surface under one reading plus a homophone
     Case([("std", "さんぽ", "散歩", "N.sahen"), ("std", "さんぽ", "三歩", "N.common"), ("std", "さんぽ", "散歩", "N.common")],
          [("normal", "散歩", 1)], "さんぽ", 2),
+    # homograph particles at one span that connect to different left neighbours (C02c seed's shape)
+    Case([("std", "かい", "貝", "N.common"), ("std", "かい", "買い", "V.godan.12527"), ("std", "かいか", "開花", "N.sahen"),
+          ("anc", "から", "から", "P.case"), ("anc", "から", "から", "P.conjunctive")], [("normal", "から", 3)], "かいから", 2),
+    Case([("std", "かい", "貝", "N.common"), ("std", "かい", "買い", "V.godan.12527"), ("std", "かいか", "開花", "N.sahen"),
+          ("anc", "から", "から", "P.case")], [("normal", "から", 3)], "かいから", 5),
     # prefix followed by a proper noun (C16 seed's shape)
     Case([("std", "やま", "矢間", "N.proper"), ("std", "やま", "山", "N.common"), ("std", "おやま", "小山", "N.common"),
           ("anc", "お", "御", "AFX.prefix")], [], "おやま", 5),
